@@ -340,4 +340,117 @@ def decRDiff (f : Fmt) (V : Cdc ν) (D : Cdc δ) (bs : Bytes) : Option (RMap.Dif
     | some 1 => (decList (decRChange f V D) bs).map fun (es, r) => (.modify es, r)
     | _ => none
 
+/-! derived struct diffs: `Vec<__XDiff>` where the generated enum has ONE VARIANT PER UNSKIPPED FIELD, in declaration
+order, so the discriminant of the entry for field `j` is the RANK of `j` among the unskipped fields (the model's
+entries carry the field index itself). The codec derives write that discriminant as `u16` (nanoserde) / `u32`
+(bincode). Generic in the per-field payload codecs (those are produced by the codec derives for the field types). -/
+
+/-- number of unskipped fields before position `j` (`skips[i] = true` = field `i` is skipped) -/
+def rank : List Bool → Nat → Nat
+  | [], _ => 0
+  | _ :: _, 0 => 0
+  | b :: t, j + 1 => (if b then 0 else 1) + rank t j
+
+/-- the position of the unskipped field with the given rank -/
+def unrank : List Bool → Nat → Option Nat
+  | [], _ => none
+  | true :: t, r => (unrank t r).map (· + 1)
+  | false :: _, 0 => some 0
+  | false :: t, r + 1 => (unrank t r).map (· + 1)
+
+def encDTag (f : Fmt) (t : Nat) : Bytes := match f with | .nano => le 2 t | .bincode => le 4 t
+def decDTag (f : Fmt) (bs : Bytes) : Option (Nat × Bytes) := match f with | .nano => readLE 2 bs | .bincode => readLE 4 bs
+
+variable {π : Type}
+
+def encEntry (f : Fmt) (skips : List Bool) (P : Nat → Cdc π) (e : Nat × π) : Bytes :=
+  encDTag f (rank skips e.1) ++ (P e.1).enc e.2
+
+def decEntry (f : Fmt) (skips : List Bool) (P : Nat → Cdc π) (bs : Bytes) : Option ((Nat × π) × Bytes) :=
+  match decDTag f bs with
+  | none => none
+  | some (t, bs) =>
+    match unrank skips t with
+    | none => none
+    | some j => ((P j).dec bs).map fun (p, r) => ((j, p), r)
+
+def encEntries (f : Fmt) (skips : List Bool) (P : Nat → Cdc π) (es : List (Nat × π)) : Bytes :=
+  encList (encEntry f skips P) es
+def decEntries (f : Fmt) (skips : List Bool) (P : Nat → Cdc π) (bs : Bytes) : Option (List (Nat × π) × Bytes) :=
+  decList (decEntry f skips P) bs
+
+/-- payloads of plain fields of the two value types the flat shapes use: `u32` and `Option<u32>` -/
+inductive PV
+  | u (v : Nat)
+  | o (v : Option Nat)
+deriving DecidableEq, Repr
+
+/-- the payload codec of a plain field: `u32` (4 bytes LE) or `Option<u32>` (one byte 0/1, then the value); the same
+in both formats -/
+def pvCdc (isOpt : Bool) : Cdc PV where
+  enc
+    | .u v => encElem v
+    | .o none => [0]
+    | .o (some v) => 1 :: encElem v
+  dec bs :=
+    if isOpt then
+      match bs with
+      | 0 :: r => some (.o none, r)
+      | 1 :: r => (decElem r).map fun (v, r) => (.o (some v), r)
+      | _ => none
+    else (decElem bs).map fun (v, r) => (.u v, r)
+
+/-! fields holding a RECURSIVE MAP whose values are flat structs: the payload is the hand-written codec of
+`UnorderedMapLikeRecursiveDiff` (`encRDiff`) instantiated with the value codec (all fields of the value, skipped ones
+included: `skip` only concerns `Difference`) and the nested entry-list codec of the value type -/
+
+/-- the flat value type of a recursive map: which fields are skipped, which are `Option<u32>` -/
+structure LeafTy where
+  skips : List Bool
+  opts : List Bool
+deriving DecidableEq, Repr
+
+def decVals : List Bool → Bytes → Option (List PV × Bytes)
+  | [], bs => some ([], bs)
+  | o :: t, bs =>
+    match (pvCdc o).dec bs with
+    | none => none
+    | some (v, r) => (decVals t r).map fun (vs, r') => (v :: vs, r')
+
+/-- a struct value: its fields in declaration order -/
+def valsCdc (opts : List Bool) : Cdc (List PV) where
+  enc vs := (vs.map (pvCdc false).enc).flatten
+  dec := decVals opts
+
+def leafEntriesCdc (f : Fmt) (L : LeafTy) : Cdc (List (Nat × PV)) where
+  enc := encEntries f L.skips (fun j => pvCdc (L.opts.getD j false))
+  dec := decEntries f L.skips (fun j => pvCdc (L.opts.getD j false))
+
+abbrev LeafDiff := RMap.Diff Nat (List PV) (List (Nat × PV))
+
+/-- payload of a field of a struct whose fields are flat or recursive maps of flat values -/
+inductive PL
+  | pv (p : PV)
+  | rm (d : LeafDiff)
+
+inductive FKind
+  | flat (isOpt : Bool)
+  | rmap (L : LeafTy)
+deriving DecidableEq, Repr
+
+def plCdc (f : Fmt) : FKind → Cdc PL
+  | .flat o =>
+    { enc := fun p => match p with | .pv p => (pvCdc o).enc p | .rm _ => []
+      dec := fun bs => ((pvCdc o).dec bs).map fun (p, r) => (.pv p, r) }
+  | .rmap L =>
+    { enc := fun p => match p with | .rm d => encRDiff f (valsCdc L.opts) (leafEntriesCdc f L) d | .pv _ => []
+      dec := fun bs => (decRDiff f (valsCdc L.opts) (leafEntriesCdc f L) bs).map fun (d, r) => (.rm d, r) }
+
+/-- the borrowed form (`DiffRef`): flat payloads are written identically, the recursive-map payload through the
+borrowed tables -/
+def plEncRef (f : Fmt) : FKind → PL → Bytes
+  | .flat o, .pv p => (pvCdc o).enc p
+  | .rmap L, .rm d => encRDiffRef f (valsCdc L.opts) (leafEntriesCdc f L) d
+  | _, _ => []
+
 end Codec
